@@ -7,7 +7,7 @@ LEAF = {
     'c': 'c', 'two': '2', 'three': '3', 'half': '0.5', 'hpar': 'h', 'hx': 'Dx(h,0)', 'gw': 'gw',
     'f': 'f', 'f2': 'f2', 'cD': 'c', 'twoD': '2',
     'gu': 'grad(u)', 'gv': 'grad(v)', 'gup': 'grad(u,parametric=True)', 'gh': 'grad(h)', 'g': 'g', 'x': 'x',
-    'Hu': 'hess(u)', 'Hv': 'hess(v)', 'A': 'A', 'J': 'jac', 'Gg': 'grad(g)',
+    'Ainv': 'inv(A)', 'Jinv': 'inv(jac)', 'Hu': 'hess(u)', 'Hv': 'hess(v)', 'A': 'A', 'J': 'jac', 'Gg': 'grad(g)',
 }
 UNARY = {
     'neg': '(-(%s))', 'sin': 'sin(%s)', 'cos': 'cos(%s)', 'exp': 'exp(%s)', 'log': 'log(%s)', 'sqrt': 'sqrt(%s)',
